@@ -488,6 +488,10 @@ def _run_property(pid, tier, seed):
         with ctx.Pool(min(ncpu, shards)) as pool:
             parts += pool.map(_hyp_shard, [(pid, tier, seed, s, per, deadline) for s in range(shards)], chunksize=1)
 
+    # 3b. property-specific generators that do not fit the case strategy (e.g. rule-based state machines)
+    if hasattr(mod, "extra_parts"):
+        parts += mod.extra_parts(tier, seed, deadline, ncpu)
+
     acc = merge(parts)
 
     # 4. judge buckets
